@@ -27,7 +27,7 @@ LEVEL_TEXT = ("Scenarios restricted to the v1 vocabulary (discrete/continuous re
               "be identical. Runs with the grid section omitted / optional sections omitted must equal the explicit ones.")
 LEVEL_NOTE = "The TOML text is produced by the harness's own writer and read by ladim through tomli; with diffusion > 0 the tracker's rng is re-seeded identically by the harness in every run so that outputs are comparable exactly."
 RULE = ("case = scenario spec; renderings yaml2, toml2, yaml1 (+ grid-omitted, sections-omitted variants). Non-trivial: several release times or continuous release and moving water; distinct by spec.")
-MANDATORY = ["ibm_plugin_file_with_module_level_state", "diffusion_coefficient_of_exactly_one", "configuration_file_names_with_several_dots", "wildcard_with_question_mark", "reference_time_as_native_datetime_with_time_of_day", "extra_forcing_variable", "version_key_as_string_with_decimal_point", "v1_grid_file_omitted_pairs", "yaml_anchor_and_alias", "steps_not_multiple_of_output_period", "wildcard_names_of_unequal_length", "v1_file_names_in_files_section", "v1_discrete_with_release_frequency", "configure_dicts_compared", "plugin_gridforce", "version_key_omitted", "yaml2_vs_toml2", "yaml2_vs_yaml1", "grid_omitted_pairs", "wildcard_forcing", "optional_sections_omitted_pairs", "continuous", "discrete", "subgrid", "diffusion_seeded",
+MANDATORY = ["release_by_lonlat_with_lonlat_in_the_output", "ibm_plugin_file_with_module_level_state", "diffusion_coefficient_of_exactly_one", "configuration_file_names_with_several_dots", "wildcard_with_question_mark", "reference_time_as_native_datetime_with_time_of_day", "extra_forcing_variable", "version_key_as_string_with_decimal_point", "v1_grid_file_omitted_pairs", "yaml_anchor_and_alias", "steps_not_multiple_of_output_period", "wildcard_names_of_unequal_length", "v1_file_names_in_files_section", "v1_discrete_with_release_frequency", "configure_dicts_compared", "plugin_gridforce", "version_key_omitted", "yaml2_vs_toml2", "yaml2_vs_yaml1", "grid_omitted_pairs", "wildcard_forcing", "optional_sections_omitted_pairs", "continuous", "discrete", "subgrid", "diffusion_seeded",
              "particle_variable_column", "values_compared"]
 ASSUMPTIONS = ["only what the v1 vocabulary can express"]
 MIN_CASES_PER_PROCESS = 4  # several runs share one interpreter: state leaking between runs (module caches, shared defaults) becomes observable
@@ -84,7 +84,7 @@ def spec_for(case: dict[str, Any]) -> dict[str, Any]:
     cont = bool(case["idx"] % 2)
     nfiles = int(rng.choice([1, 2, 3]))
     return dict(dt=dt, ns=ns, cont=cont, freq=int(rng.integers(1, 3)), subgrid=[2, 17, 1, 13] if case["idx"] % 3 == 0 else None,
-                diffusion=float(rng.choice([0.0, 0.0, 25.0, 1.0])), diff_as_int=bool(case["idx"] % 2), stateful_ibm=bool(case["idx"] % 2 == 0), dotted_names=int(case["idx"] % 3), advection=str(rng.choice(["EF", "RK2", "RK4"])),
+                diffusion=float(rng.choice([0.0, 0.0, 25.0, 1.0])), diff_as_int=bool(case["idx"] % 2), lonlat=bool(case["idx"] % 5 == 4), stateful_ibm=bool(case["idx"] % 2 == 0), dotted_names=int(case["idx"] % 3), advection=str(rng.choice(["EF", "RK2", "RK4"])),
                 nfiles=nfiles, wildcard=bool(nfiles > 1 or rng.random() < 0.5), reference=("2019-12-31T12:30:00" if case["idx"] % 4 == 1 else "2019-12-31T00:00:00") if (rng.random() < 0.5 or case["idx"] % 4 == 1) else None,
                 cohort=bool(rng.random() < 0.6), ibm=bool(rng.random() < 0.5 or case["idx"] % 4 == 3), xf=bool(case["idx"] % 4 == 3), outper_spelling=int(rng.integers(2)), seed=int(rng.integers(10**6)),
                 outper_mult=2 if (case["idx"] // 2) % 2 else 1, version_key=bool(rng.random() < 0.5 or case["idx"] % 4 == 2), vsp=case["idx"] % 4, plugin_gridforce=bool(case["idx"] % 4 == 1), odd_names=bool(nfiles > 1 and case["idx"] % 3 != 2))
@@ -104,6 +104,7 @@ def make_files(sp: dict[str, Any], wd: Path):
     w = W.write_world(wd / "world", dict(imax=20, jmax=15, N=3, t0=C.T0, frames=[f * dt for f in fr], files=counts,
                                           vel=dict(kind="gyre", A=spd, kx=0.4, ky=0.45, ratio=0.8, frame_amp=[1.0 + 0.1 * k for k in range(nfr)]),
                                           metric=dict(kind="uniform", dx=1000.0, dy=1000.0), h=dict(kind="flat", h=80.0),
+                                          lonlat=dict(kind="index", lon0=5.0, dlon=0.02, lat0=60.0, dlat=0.01),
                                           scalars=dict(temp=dict(kind="xyt", a=5.0, b=0.3, c=-0.2, e=0.0)) if sp.get("xf") else {},
                                           # names of unequal length: the first file in sorted order is not the shortest name
                                           file_names=(["f_0001_spinup.nc", "f_0002.nc", "f_0010.nc"][:len(counts)] if sp["odd_names"] else None)))
@@ -127,6 +128,11 @@ def make_files(sp: dict[str, Any], wd: Path):
         if sp["cohort"]:
             r.append(float(k + 1))
         rows.append(r)
+    if sp.get("lonlat"):
+        # release positions given as longitude/latitude, which are also written to the output (examples/latlon)
+        names = ["lon" if n_ == "X" else "lat" if n_ == "Y" else n_ for n_ in names]
+        for r in rows:
+            r[2], r[3] = float(np.round(5.0 + 0.02 * r[2], 6)), float(np.round(60.0 + 0.01 * r[3], 6))
     rls = wd / "release.rls"
     write_release(rls, names, rows, header=False)
     return w, rls, names
@@ -140,11 +146,11 @@ def renderings(sp: dict[str, Any], wd: Path, w, rls: Path, names: list[str]) -> 
         forcing_file = str(Path(w["pattern"]).parent / "f_00?.nc")  # the other wildcard character
     opdt = dt * sp.get("outper_mult", 1)
     outper_v = [opdt, "s"] if sp["outper_spelling"] == 0 else opdt
-    ivars = ["pid", "X", "Y", "Z"] + (["age"] if sp["ibm"] else []) + (["temp"] if sp.get("xf") else [])
+    ivars = ["pid", "X", "Y", "Z"] + (["age"] if sp["ibm"] else []) + (["temp"] if sp.get("xf") else []) + (["lon", "lat"] if sp.get("lonlat") else [])
     pvars = ["release_time"] + (["cohort"] if sp["cohort"] else [])
     attrs = dict(pid=dict(long_name="particle identifier"), X=dict(long_name="X"), Y=dict(long_name="Y"), Z=dict(long_name="depth", units="m"),
-                 age=dict(long_name="age"), temp=dict(long_name="temperature"), release_time=dict(long_name="release time", units="seconds since reference_time"), cohort=dict(long_name="cohort"))
-    nct = dict(pid="i4", X="f8", Y="f8", Z="f8", age="f8", temp="f8", release_time="f8", cohort="f8")
+                 age=dict(long_name="age"), temp=dict(long_name="temperature"), lon=dict(long_name="longitude"), lat=dict(long_name="latitude"), release_time=dict(long_name="release time", units="seconds since reference_time"), cohort=dict(long_name="cohort"))
+    nct = dict(pid="i4", X="f8", Y="f8", Z="f8", age="f8", temp="f8", lon="f8", lat="f8", release_time="f8", cohort="f8")
     shared = bool(sp["seed"] % 2)
     if shared:
         # X and Y described by one and the same mapping object: the YAML files then carry an anchor and an alias (&id001 / *id001)
@@ -165,7 +171,7 @@ def renderings(sp: dict[str, Any], wd: Path, w, rls: Path, names: list[str]) -> 
     if sp["subgrid"]:
         v2["grid"]["subgrid"] = sp["subgrid"]
     v2["forcing"] = dict(module=gfmod, filename=forcing_file)
-    v2["state"] = dict(instance_variables=dict(age="float") if sp["ibm"] else {},
+    v2["state"] = dict(instance_variables=dict(**(dict(age="float") if sp["ibm"] else {}), **(dict(lon="float", lat="float") if sp.get("lonlat") else {})),
                        particle_variables=dict(release_time="time", **({"cohort": "float"} if sp["cohort"] else {})),
                        default_values=dict(age=0) if sp["ibm"] else {})
     if sp.get("xf"):  # a scalar forcing field carried by the particles (v1: gridforce.extra_forcing + ibm.variables)
@@ -302,6 +308,7 @@ def run_case(case: dict[str, Any], wd: Path) -> dict[str, Any]:
     sit["particle_variable_column"] = int(sp["cohort"])
     sit["diffusion_seeded"] = int(sp["diffusion"] > 0)
     sit["ibm_plugin_file_with_module_level_state"] = int(bool(sp["ibm"] and sp.get("stateful_ibm")))
+    sit["release_by_lonlat_with_lonlat_in_the_output"] = int(bool(sp.get("lonlat")))
     sit["diffusion_coefficient_of_exactly_one"] = int(sp["diffusion"] == 1.0)
     sit["configuration_file_names_with_several_dots"] = int(sp.get("dotted_names", 0) > 0)
 
